@@ -264,7 +264,7 @@ CHECKS["C25"] = {
     ],
     "timeout_s": {"quick": 600, "thorough": 5400},
     "technique": "runtime monitoring: stateful packet-sequence fuzzing of the real gateway session and the real client library in virtual time; crash watch by child-process survival (journal pins the case); race detector as diagnostic in the thorough tier",
-    "level_text": "14000 (quick) generated packet sequences on three fronts - hostile MQTT-SN client against the gateway, hostile broker against the gateway, hostile gateway against the client library with API calls in flight - with IDs and names drawn from small alphabets so that packets hit existing state, random timing incl. sleep cycles and racy injection. Any panic, fatal error or failed type assertion in any goroutine kills the child process; the driver re-runs the pending cases serially to pin the culprit.",
+    "level_text": "14300 (quick) generated packet sequences on four fronts - hostile MQTT-SN client against the gateway, hostile broker against the gateway, hostile gateway against the client library with API calls in flight, client terminated while calls are blocked and new ones start - with IDs and names drawn from small alphabets so that packets hit existing state, random timing incl. sleep cycles and racy injection. Any panic, fatal error or failed type assertion in any goroutine kills the child process; the driver re-runs the pending cases serially to pin the culprit.",
     "level_note": "sequences are sampled, not enumerated; only decodable packets are sent (undecodable ones are C20's subject); calls that never return are C28's subject",
     "design_ref": "3/C25",
 }
